@@ -1,16 +1,27 @@
 """C16 - what a container start registers on the host, its finish removes.
 
 Case = {hosts, busy, plugin, foreign, containers:[spec...], ops:[[kind, idx(, k)]...]}
-ops:  ['start', i]      port allocation + _unshare_network of container i
-      ['finish', i]     _cleanup_network of container i (first or repeated)
-      ['crash', i, k]   a finish of container i killed at its k-th host-side
-                        mutation (k beyond the number of mutations = a normal
-                        finish)
+ops:  ['start', i]      the real _run.run() for container i (resource requests,
+                        port allocation, save_app, _unshare_network, root dir,
+                        image, presence, exec) - as `treadmill sproc run`
+      ['fstart', i, k]  the same with the k-th boundary call of the start
+      ['fstart', i, L, n]   (or the n-th boundary call labelled L) failing;
+                        run() then fails or copes as the code decides; a failed
+                        run flags the container aborted, like sproc run, and
+                        the container is finished later like any other
+      ['finish', i]     the real _finish.finish() for container i (first or
+                        repeated) - as `treadmill sproc finish`
+      ['crash', i, k]   a finish of container i killed at its k-th boundary
+                        call (k beyond the number of calls = a normal finish)
+Boundary call = any call that leaves the process (resource service clients,
+ipset, rule / endpoint spec files, resolver, sockets, newnet, mounts, image,
+hooks, exec ...; the full list is in pbt/netsim.py).
 
 Oracle (state based, shares no code with _finish): the observable host state is
   rules/ (name -> link target), endpoints/ (name -> link target), every ip set
   (members) and the firewall plugin's per-container exception rules.
-  owned[i] = what start i added (difference of two snapshots).  After a
+  owned[i] = what start i added (difference of two snapshots), whether the
+  start succeeded or failed half way.  After a
   completed finish of i the state must equal the state before that finish minus
   owned[i]; after a repeated finish it must be unchanged; a killed finish may
   leave some of owned[i] behind but must not touch anything else, and the next
@@ -29,7 +40,9 @@ from pbt.run import Violation
 
 ID = 'C16'
 LEVEL = 'exploration'
-RULE = ('Histories of start / finish / repeated finish / killed finish over '
+RULE = ('Histories of start / start with a fault injected at a generated '
+        'boundary call / finish / repeated finish / killed finish, driven '
+        'through the real run() and finish() entry points, over '
         '1-4 containers with generated manifests (0-6 endpoints tcp/udp, '
         'infra type, port 0, explicit ports equal to allocatable ports, '
         'ephemeral tcp/udp counts, 0-3 passthrough hosts through a fake '
@@ -41,7 +54,9 @@ RULE = ('Histories of start / finish / repeated finish / killed finish over '
         '>=1 udp endpoint, >=1 infra endpoint, ephemeral ports, passthrough '
         'and vring cells completed its finish while another private-network '
         'container was registered on the host, and every entry it owned was '
-        'checked. distinct = canonical JSON of the case.')
+        'checked; or a container whose start failed after it had registered '
+        'at least one entry completed its finish. distinct = canonical JSON '
+        'of the case.')
 ASSUMPTIONS = [
     'manifest fields are normalised as appcfg.manifest.load and '
     'add_linux_system_services leave them (endpoint name/port/type/proto, '
@@ -50,14 +65,24 @@ ASSUMPTIONS = [
     'code carries a FIXME for the other case; not part of the statement)',
     'a container has exited (its sockets are closed) before it is finished; '
     'containers are started and finished one at a time on a node',
+    'a failed run() is followed by what sproc run does (aborted flag, process '
+    'exit) and later by finish; an injected fault makes one boundary call '
+    'raise OSError(EIO) before it has any effect; a run killed and restarted '
+    'by the supervisor is not modelled',
+    'a shared-network container never gets through run() in this snapshot '
+    '(run waits for a network resource it did not request; the client times '
+    'out): such a start is an aborted start without saved state',
+    'resource services (cgroup, localdisk, network, presence) are not part of '
+    'the statement: a vip still allocated after the finish of a container '
+    'whose start failed before its state was saved is counted, not reported',
     'the network resource client returns nothing after delete, as '
     'ResourceServiceClient.get does once the request directory is renamed',
     'ipset add/del carry -exist (idempotent), as iptables.add_ip_set does',
     'ranges of the port policy are read from treadmill.iptables (the '
     'constants the node firewall is generated from); prod class = prod, uat',
 ]
-TRUSTED = ['pbt/netsim.py (fake socket/sampler/resolver/ipset/network '
-           'client/firewall plugin)']
+TRUSTED = ['pbt/netsim.py (fake socket/sampler/resolver/ipset/resource '
+           'service clients/firewall plugin/newnet/mount/image/hooks/exec)']
 BUDGET = {'quick': 6000, 'thorough': 128000}
 
 APP_NAMES = ['proid.web#0000000001', 'proid.web#0000000002',
@@ -71,6 +96,11 @@ OFFSETS = [0, 1, 2, 3, 4, -1, -2]
 FOREIGN_OFFSET = 7
 FOREIGN_OWNER = 'zz.other-0000000009-00000foreign1'
 FOREIGN_VIP = '192.168.9.9'
+# boundary labels of the start path worth aiming a fault at (see netsim)
+FAULT_LABELS = ['net.put', 'net.wait', 'socket.bind', 'rules.create_rule',
+                'rules.create_rule', 'endpoints.create_spec', 'ipset.add',
+                'ipset.add', 'resolve', 'plugin.apply', 'newnet', 'newnet',
+                'fs.mount', 'image.unpack', 'presence.put', 'exec_pid1']
 
 
 # --------------------------------------------------------------------------
@@ -151,7 +181,7 @@ def history(draw):
     for _ in range(draw(st.integers(ncont, 3 * ncont + 3))):
         kinds = []
         if pending:
-            kinds += ['start'] * 4
+            kinds += ['start'] * 3 + ['fstart']
         if live:
             kinds += ['finish'] * 2 + ['crash']
         if done:
@@ -163,6 +193,14 @@ def history(draw):
             idx = pending.pop(0)
             live.append(idx)
             ops.append(['start', idx])
+        elif kind == 'fstart':
+            idx = pending.pop(0)
+            live.append(idx)
+            if draw(st.booleans()):
+                ops.append(['fstart', idx, draw(st.integers(1, 70))])
+            else:
+                ops.append(['fstart', idx, draw(st.sampled_from(FAULT_LABELS)),
+                            draw(st.sampled_from([1, 1, 2, 3]))])
         elif kind == 'finish':
             idx = draw(st.sampled_from(live))
             live.remove(idx)
@@ -225,8 +263,9 @@ def _kind(entry, cont):
     ep_infra = set()
     if cont is not None and cont.manifest is not None:
         for proto in ('tcp', 'udp'):
-            eph[proto] = {str(p) for p in
-                          cont.manifest['ephemeral_ports'][proto]}
+            ports = cont.manifest['ephemeral_ports'][proto]
+            if isinstance(ports, list):
+                eph[proto] = {str(p) for p in ports}
         ep_infra = {(ep['proto'], str(ep['port']))
                     for ep in cont.manifest['endpoints']
                     if ep.get('type') == 'infra'}
@@ -399,6 +438,8 @@ def execute(case, stats):  # pylint: disable=too-many-locals,too-many-branches
         busy.add((proto, low + off if off >= 0 else high + 1 + off))
 
     nontrivial = False
+    rich_with_neighbour = False
+    failed_start_cleaned = False
     world = netsim.World(case['hosts'], (), case['plugin'])
     with world:
         busy |= _seed_foreign(world, case, ranges)
@@ -410,6 +451,7 @@ def execute(case, stats):  # pylint: disable=too-many-locals,too-many-branches
         owned = {}        # idx -> {entry: value} added by its start
         registered = []   # idx started and not completely finished
         complete = set()
+        failed_with_entries = set()
         vips_seen = {}
 
         def expect_global(now, where):
@@ -429,21 +471,54 @@ def execute(case, stats):  # pylint: disable=too-many-locals,too-many-branches
             where = 'op %d %r' % (opno, oper)
             before = _flatten(world.snapshot())
 
-            if kind == 'start':
+            if kind in ('start', 'fstart'):
                 spec = case['containers'][idx]
+                fault = None
+                if kind == 'fstart':
+                    fault = {'at': oper[2]} if len(oper) == 3 else \
+                        {'label': oper[2], 'nth': oper[3]}
                 held = {key: world.containers[j].unique_name
                         for j in world.containers
                         for key in [(s.proto, s.addr[1])
                                     for s in world.containers[j].sockets
                                     if s.addr is not None and not s.closed]}
                 refused0 = world.sockmod.refused
-                cont = world.start(idx, spec)
-                stats.count('op:start')
+                cont = world.start(idx, spec, fault)
+                stats.count('op:' + kind)
                 stats.count('start:shared' if spec['shared_network']
                             else 'start:private')
                 if world.sockmod.refused > refused0:
                     stats.count('start:port-collision')
-                _check_ports(cont, world, ranges, busy, held, stats)
+                failed = cont.start_error is not None
+                if cont.fault_label is not None:
+                    stats.count('fault-at:' + cont.fault_label)
+                    stats.count('fault:start-failed' if failed
+                                else 'fault:handled-by-the-code')
+                elif kind == 'fstart':
+                    stats.count('fault:point-not-reached')
+                if failed and cont.fault_label is None:
+                    if spec['shared_network'] and isinstance(
+                            cont.start_error,
+                            netsim.services.ResourceServiceTimeoutError):
+                        stats.count('start:shared-network-wait-times-out')
+                    elif isinstance(cont.start_error, FileExistsError):
+                        # an entry this container needs is already there and
+                        # belongs to somebody else.  Not judged here (the
+                        # statement is about finish): the container is
+                        # aborted and finished like any failed start, and
+                        # whoever left the entry behind is caught at its
+                        # own finish.
+                        stats.count('start:failed-on-existing-entry')
+                    else:
+                        # run() failed without an injected fault: not
+                        # something the generator produces -> harness error
+                        raise cont.start_error
+                if failed:
+                    stats.count('start:failed')
+                    stats.count('start:failed-%s-state' % (
+                        'with' if cont.state_saved else 'without'))
+                else:
+                    _check_ports(cont, world, ranges, busy, held, stats)
                 after = _flatten(world.snapshot())
                 added, removed, changed = _diff(before, after)
                 if removed or changed:
@@ -455,8 +530,12 @@ def execute(case, stats):  # pylint: disable=too-many-locals,too-many-branches
                 owned[idx] = added
                 registered.append(idx)
                 stats.count('entries_registered', len(added))
-                if not spec['shared_network']:
-                    vip = cont.network['vip']
+                if failed and added:
+                    stats.count('start:failed-after-registering')
+                    failed_with_entries.add(idx)
+                network = world.network_of(cont)
+                if not spec['shared_network'] and network:
+                    vip = network['vip']
                     if vip in vips_seen:
                         stats.count('start:vip-reused')
                     vips_seen[vip] = idx
@@ -532,8 +611,11 @@ def execute(case, stats):  # pylint: disable=too-many-locals,too-many-branches
                 entry = sorted(left)[0]
                 raise Violation(
                     'c16.leak.%s' % _kind(entry, cont),
-                    '%s: after finish of %s (vip %s) still registered: [%s]'
-                    % (where, cont.unique_name, cont.network['vip'],
+                    '%s: after finish of %s (vip %s%s) still registered: [%s]'
+                    % (where, cont.unique_name,
+                       (world.network_of(cont) or {}).get('vip'),
+                       '' if cont.start_error is None else
+                       '; its start had failed at %s' % cont.fault_label,
                        _fmt(left)))
             stats.count('entries_checked_removed', len(mine))
             stats.count('foreign_entries_checked_kept',
@@ -542,18 +624,25 @@ def execute(case, stats):  # pylint: disable=too-many-locals,too-many-branches
             complete.add(idx)
             owned[idx] = {}
             expect_global(after, where)
-            if not cont.spec['shared_network'] and \
-                    world.net.get(cont.unique_name) is not None:
-                raise Violation(
-                    'c16.finish.vip-not-released',
-                    '%s: network resource of %s still allocated' % (
-                        where, cont.unique_name))
+            if cont.unique_name in world.services()['net']:
+                if cont.state_saved:
+                    raise Violation(
+                        'c16.finish.vip-not-released',
+                        '%s: network resource of %s still allocated' % (
+                            where, cont.unique_name))
+                # start failed before save_app: finish has nothing to go on
+                stats.count('finish:no-state-vip-still-allocated')
             if others_private:
                 stats.count('finish:with-other-registered')
-            if _is_rich(cont.spec) and mine:
+            if _is_rich(cont.spec) and mine and cont.start_error is None:
                 stats.count('finish:rich')
                 if others_private:
                     nontrivial = True
+                    rich_with_neighbour = True
+            if idx in failed_with_entries:
+                stats.count('finish:failed-start-entries-removed')
+                nontrivial = True
+                failed_start_cleaned = True
 
         if not registered:
             final = _flatten(world.snapshot())
@@ -565,8 +654,10 @@ def execute(case, stats):  # pylint: disable=too-many-locals,too-many-branches
                     'changed [%s]' % (_fmt(added), _fmt(removed),
                                       _fmt(changed)))
             stats.count('histories_drained')
-    if nontrivial:
+    if rich_with_neighbour:
         stats.count('class:rich-finish-with-neighbour')
+    if failed_start_cleaned:
+        stats.count('class:failed-start-with-entries-finished')
     return nontrivial
 
 
@@ -620,7 +711,26 @@ def fixed_cases():
         _spec(1, endpoints=[], eph={'tcp': 0, 'udp': 2})],
                 ops=[['start', 0], ['start', 1], ['finish', 0],
                      ['finish', 1]])
-    return [('two-rich-containers', two), ('same-app-name-vip-reuse',
-                                           same_name),
+    # starts failing at every kind of boundary call, next to a running
+    # container; each is finished twice, then a third container reuses vips.
+    faults = [['newnet', 1], ['rules.create_rule', 3], ['ipset.add', 2],
+              ['endpoints.create_spec', 2], ['resolve', 2], ['net.wait', 1],
+              ['socket.bind', 2], ['fs.mount', 1], ['presence.put', 1],
+              ['exec_pid1', 1], ['plugin.apply', 1]]
+    failed = []
+    for num, (label, nth) in enumerate(faults):
+        failed.append((
+            'failed-start-at-%s' % label,
+            dict(base, containers=[_spec(0), _spec(1, name=num % 2),
+                                   _spec(2, env='prod')],
+                 ops=[['start', 0], ['fstart', 1, label, nth], ['finish', 1],
+                      ['finish', 1], ['start', 2], ['finish', 1],
+                      ['finish', 0], ['finish', 2]])))
+    counted = dict(base, containers=[_spec(0), _spec(1)],
+                   ops=[['fstart', 0, 40], ['fstart', 1, 55], ['crash', 0, 9],
+                        ['finish', 1], ['finish', 0], ['finish', 1]])
+    return failed + [('failed-starts-by-count', counted),
+                     ('two-rich-containers', two), ('same-app-name-vip-reuse',
+                                                    same_name),
             ('killed-finishes', killed), ('shared-network', shared),
             ('bare-manifests', bare)]
